@@ -83,6 +83,24 @@ def target_section(rng, thorough, rundir, model_run, res, count):
     return len(ops), dis
 
 
+def tilde_target_section(res, count):
+    """C13: `hub-sync LOCAL host:~/hub` — the root is expanded by the remote shell (documented usage). After an exit-0 run every
+    local file is on THE hub, i.e. below <remote home>/hub, where another client that names the hub by its absolute path finds it
+    (seed C13-K: the root was $'…'-quoted for the remote shell, `serve` created a directory literally named `~`)."""
+    for root_spelling in ("~/hubT", "$HOME/hubT"):
+        with Sandbox("C13") as sb:
+            l1 = sb.path("alice"); sb.write_tree(l1, {"a.txt": b"from alice\n", "sub/n.txt": b"nested\n"})
+            rc, out, err = sb.run(["hub-sync", l1, f"{HOST}:{root_spelling}"], timeout=60)
+            hub = os.path.join(sb.home, "hubT")
+            got = hub_state(hub) if os.path.isdir(hub) else {}
+            stray = [n for n in os.listdir(sb.home) if n in ("~", "$HOME")]
+            count("target/remote-shell-expansion")
+            rep = {"target": f"{HOST}:{root_spelling}", "rc": rc, "stdout": out.decode("utf-8", "replace")[-200:], "stderr": err.decode("utf-8", "replace")[-200:],
+                   "files_below_<remote home>/hubT": sorted(got), "stray_in_remote_home": stray}
+            if rc == 0 and (got.get("a.txt") != b"from alice\n" or got.get("sub/n.txt") != b"nested\n"):
+                res["violations"].append(("exit0-but-local-file-not-on-hub", f"hub-sync to {HOST}:{root_spelling} exited 0 but <remote home>/hubT does not hold the local files (stray directories in the remote home: {stray})", rep))
+
+
 def h6(data_list):
     """a content as the model sees it: the first 6 bytes of its BLAKE3 (= the 12 hex digits of a conflict-copy name)"""
     return [h[:12] for h in blake3_hex(data_list)]
@@ -301,6 +319,7 @@ def run(pid, tier, seed, rundir, model_run):
     if mdis:
         res["broken"].append(f"C13/corr/multi-client: hub tree / counters after {mdis} of {len(mq)} real runs differ from Model/HubMulti (theorems C13.step_lands, step_overwrites_only_listed, run_steps_safe)")
     ntgt, tdis = target_section(rng, tier == "thorough", rundir, model_run, res, count)
+    tilde_target_section(res, count)
     tdis += mdis
     res.update(evaluations=nrun + ntgt, distinct_nontrivial=n, n_disagreements=tdis, n_oracle_failures=len(res["violations"]),
                rule="hub trees of 0–4 files and local trees of 0–7 files over names incl. nested, spaces, `.copia`-prefixed user files, conflict-looking names; some local files already on the hub (same / changed); "
